@@ -1,5 +1,6 @@
 (* C34 driver: runs the extracted surface-query model (coq/C34/C34_Model.v) with a float NumOps.
    Same query lines as harness/C34_probe.cpp (directions already normalised; HSR takes sig first):
+     EL nops {code r[3]}* kind args (ellipsoid object: construct / setRadii / copy, then one query) |
      HSN p | HSR sig o d | SPN r p | SPR r o d | SPV r x | SPS r d | CYN r p | CYR r o d | CYV r x | BXS h d | BXB h *)
 open C34model
 #include "fops.inc"
@@ -9,8 +10,27 @@ let p3 ((a, b), c) = pf a; pf b; pf c
 let pb b = pf (if b then 1.0 else 0.0)
 let near ((q, inside), n) = p3 q; pb inside; p3 n
 let hit = function None -> pf 0.0; pf 0.0; p3 ((0.0, 0.0), 0.0) | Some (d, n) -> pf 1.0; pf d; p3 n
+let rec rep n f l = if n <= 0 then ([], l) else let (x, l) = f l in let (xs, l) = rep (n-1) f l in (x :: xs, l)
+let ni x = int_of_float x
+(* EL nops {code r[3]}* kind args : the same operation sequence on the model object (radii, cached curvatures) *)
+let run_el a =
+  let (nops, a) = hd a in
+  let op l = let (c, l) = hd l in let (r, l) = v3 l in ((ni c, r), l) in
+  let (ops, a) = rep (ni nops) op a in
+  let e = (match ops with (0, r0) :: rest -> el_run fops r0 (List.map (fun (c, r) -> if c = 1 then OpSet r else OpCopy) rest) | _ -> failwith "ops") in
+  let (kind, a) = hd a in
+  (match ni kind with
+   | 1 -> let (x, _) = v3 a in pf (el_value fops e x); p3 (el_gradient fops e x); let ((r0, r1), r2) = el_hessian fops e in p3 r0; p3 r1; p3 r2
+   | 2 -> let (d, _) = v3 a in p3 (el_support fops e d)
+   | 3 -> let (q, _) = v3 a in p3 (el_pointInDirection fops e q)
+   | 4 -> let (q, _) = v3 a in p3 (el_unitNormalAt fops e q)
+   | 5 -> pf (el_bsphere fops e)
+   | 6 -> p3 (el_curv e); p3 (el_radii e)
+   | 7 -> let (i, _) = hd a in let (kmax, kmin) = el_axisCurvatures fops e (let rec n k = if k <= 0 then O else S (n (k-1)) in n (ni i)) in pf kmax; pf kmin
+   | _ -> failwith "kind")
 let run k a =
   match k with
+  | "EL" -> run_el a
   | "HSN" -> let (p, _) = v3 a in near (hs_nearest fops p)
   | "HSR" -> let (s, a) = hd a in let (o, a) = v3 a in let (d, _) = v3 a in hit (hs_ray fops s o d)
   | "SPN" -> let (r, a) = hd a in let (p, _) = v3 a in near (sp_nearest fops r p)
